@@ -48,7 +48,7 @@ OWNED_PREFIXES = ("wait-", "start-deadlock", "start-timeout", "start-raised", "s
 
 
 def plan(tier: str) -> dict[str, Any]:
-    n = 3000 if tier == "quick" else 200000
+    n = 5000 if tier == "quick" else 600000
     return {"cases": n, "budget_s": 90 if tier == "quick" else 1500, "min_per_shard": 50}
 
 
